@@ -970,3 +970,10 @@ Proof.
       rewrite rt_calc_sur, H1. destruct (rt_pct _); reflexivity. }
     rewrite N. cbn [optQ]. ring.
 Qed.
+
+Lemma doc_rows_spec d lcs :
+  doc_rows d lcs =
+  map (fun p => mkTL (lc_total (fst p)) (ln_taxes (snd p))) (combine lcs (d_lines d)) ++
+  map (fun p => mkTL (negate (snd p)) (dd_taxes (fst p))) (doc_ddc d lcs (d_discounts d)) ++
+  map (fun p => mkTL (snd p) (dd_taxes (fst p))) (doc_ddc d lcs (d_charges d)).
+Proof. reflexivity. Qed.
